@@ -630,6 +630,32 @@ def type_level(e, depth=0, body=None):
     return False
 
 
+_PURE_COMBINATORS = ('map', 'and_then', 'map_or', 'map_or_else', 'ok_or', 'ok_or_else', 'unwrap_or', 'unwrap_or_else', 'unwrap_or_default',
+                     'branch', 'from_residual', 'from_output', 'filter', 'then', 'then_some', 'zip', 'or', 'or_else', 'is_some', 'is_none',
+                     'checked_mul', 'checked_add', 'checked_div', 'saturating_mul', 'saturating_add', 'min', 'max', 'call_once', 'call_mut', 'call')
+
+
+def closure_of_parameterless_fn(fn):
+    """the closure belongs to a function without parameters whose body calls nothing but type-level queries, pure
+    Option / Result / integer combinators and its own closures: no input byte exists anywhere in that function, so none
+    reaches the closure's parameters either (`T::encoded_fixed_size().map(|size| size * N)`)"""
+    facts = _CUR_FACTS[0]
+    if facts is None or not fn.get('parent'):
+        return False
+    pf = facts.by_path.get(fn['parent'])
+    if not pf or not pf.get('mir') or (pf.get('inputs') or []):
+        return False
+    for b in pf['mir'].get('blocks', []):
+        t = b.get('term') or {}
+        if t.get('k') == 'call':
+            c = t.get('fn') or {}
+            nm = (c.get('resolved') or c.get('f') or '').split('::')[-1]
+            nm = re.sub(r'<.*$', '', nm)
+            if nm not in TYPE_LEVEL_CALLS and nm not in _PURE_COMBINATORS:
+                return False
+    return True
+
+
 def type_level_guard(site):
     """the site's block is entered only through a branch on a type-level condition (generated `assert_eq!(size_of::<A>(),
     size_of::<B>())` style checks): whether it fires does not depend on the input"""
@@ -782,6 +808,9 @@ def discharge(site, delegated):
                 return ('const', 'constant operands, result %d in range' % v)
         if type_level(ex[0], 0, site.body) and type_level(ex[1], 0, site.body):
             return ('type-level', 'operands are constants / const generics / type-level queries: no input byte reaches them')
+        if '{closure#' in (site.fn.get('path') or '') and closure_of_parameterless_fn(site.fn) and all(
+                type_level(x, 0, site.body) or (isinstance(x, tuple) and x and x[0] == 'arg') for x in ex[:2]):
+            return ('type-level', 'closure of a parameterless function that only makes type-level queries: its parameters are type-level too')
         ba, bb = cx.bounds(ex[0]), cx.bounds(ex[1])
         if t and ba and bb and None not in ba and None not in bb:
             if op == 'Add' and ba[1] + bb[1] <= t[1] and ba[0] + bb[0] >= t[0]:
